@@ -450,3 +450,17 @@ VARIANTS += [
 VARIANTS += [
     ("C13-rs-order-value-guard", "C13", RSP, "                                if last_rank >= 6 {\n", "                                if duration.seconds != 0 || duration.microseconds != 0 {\n", "ORDER-GUARD"),
 ]
+
+
+# ---------------------------------------------------------------------------
+# independently seeded changes kept under /verif/seeded/<id>/ (see DESIGN 9.2): each must be reported by the check of
+# the property it was written for
+import json as _json
+import os as _os
+_SEED_ROOT = _os.path.join(_os.path.dirname(_os.path.dirname(_os.path.dirname(_os.path.abspath(__file__)))), "seeded")
+if _os.path.isdir(_SEED_ROOT):
+    for _sid in sorted(_os.listdir(_SEED_ROOT)):
+        _mf = _os.path.join(_SEED_ROOT, _sid, "meta.json")
+        if _os.path.exists(_mf):
+            _m = _json.load(open(_mf))
+            VARIANTS.append((f"{_m['property']}-seed-{_sid}", _m["property"], "PATCH", f"seeded/{_sid}/patch.diff", None, "VIOLATION property=" + _m["property"]))
